@@ -19,6 +19,13 @@ double nondet_double(void);
 float nondet_float(void);
 #endif
 /* fresh object of n elements of *p */
+/* regions (selected top-level statements of a function): fall-through marker and local export */
+#ifndef REGION_FALLTHROUGH
+#define REGION_FALLTHROUGH ((void)0)
+#endif
+#ifndef EXPORT_LOCAL
+#define EXPORT_LOCAL(x) ((void)0)
+#endif
 #define FRESH(p, n) __CPROVER_is_fresh((p), (n) * sizeof(*(p)))
 #define IMPLIES(a, b) (!(a) || (b))
 /* vacuity guard for assertion harnesses: built with -DCANARY_HARNESS this must FAIL */
